@@ -228,9 +228,6 @@ def check_C21(tier, seed):
     for n, m in sorted(graphs.items()):
         picks = all_picks(m)
         total = len(picks)
-        if n == 2 and not thorough:
-            rng.shuffle(picks)
-            picks = picks[:6000]
         a, b, c = replay_graph(rep, m, n, picks, "r%d-" % n)
         log("replayed %d of %d user-level transitions of the %d-file graph (%d histories, %d states compared)" % (a, total, n, c, b))
         nrep += a
@@ -240,7 +237,7 @@ def check_C21(tier, seed):
     # 3. impl -> spec: random long histories validated by TraceBuild
     ntr = 0
     tstates = 0
-    for n, count, lo, hi in ([(1, 120, 30, 200), (2, 120, 30, 200), (3, 40, 30, 120)] if thorough else [(1, 24, 30, 80), (2, 24, 30, 80)]):
+    for n, count, lo, hi in ([(1, 400, 30, 200), (2, 400, 30, 200), (3, 160, 30, 150)] if thorough else [(1, 24, 30, 80), (2, 24, 30, 80)]):
         for variant in range(4 if thorough else 2):
             hs = random_histories(seed * 1000 + n * 10 + variant, n, max(4, count // (4 if thorough else 2)), lo, hi, False, "t%d%d-" % (n, variant))
             val, res, dropped = validate_histories(rep, "Fresh", hs, n, ["TypeOK", "Fresh", "OutputFunctional"], variant=variant)
